@@ -390,6 +390,9 @@ def _fault_metadata(p, store, lay, root, sc, first=False):
         plan.uninstall()
     if not plan.fired:
         return None, f"the fault site {p['prim']}@{p['target']} was not reached natively"
+    held = _held_identifiers(store)
+    if held:
+        return True, f"{sc} after {p['prim']}@{p['target']} left identifiers locked: {held}"
     if doc(other, fmt) != vo:
         return True, "another pid's metadata document was disturbed"
     now = doc(pid, fmt)
@@ -406,6 +409,17 @@ def _fault_metadata(p, store, lay, root, sc, first=False):
         gone = isinstance(now, str) and ("all documents" not in sc or isinstance(doc(pid, fmt2), str))
         return (not gone), f"{tagp}: success reported, document still retrievable={not gone}"
     return False, f"{tagp}: failed with {out[1]}"
+
+
+def _held_identifiers(store):
+    out = {}
+    for n in ("object_locked_pids", "object_locked_cids", "reference_locked_pids",
+              "metadata_locked_docs"):
+        for suf in ("_th", "_mp"):
+            v = getattr(store, n + suf, None)
+            if v is not None and len(v):
+                out[n + suf] = list(v)
+    return out
 
 
 def o_fault_call(p, cfg):
@@ -451,6 +465,11 @@ def o_fault_call(p, cfg):
     after = lay.view()
     if not plan.fired:
         return None, f"the fault site {p['prim']}@{p['target']} was not reached natively"
+    # F1 (C08): whatever the outcome, no identifier stays locked
+    held = _held_identifiers(store)
+    if held:
+        return True, (f"{sc} ended with {out[0]} {out[1] if out[0] == 'raise' else ''} after "
+                      f"{p['prim']}@{p['target']} and left identifiers locked: {held}")
     # X4: the other pid
     if other in before["P"]:
         if other not in after["P"] or after["P"][other] != before["P"][other] \
@@ -1518,6 +1537,200 @@ def o_refs_helper_pool(p, cfg):
     return False, f"{n} helper calls leave exactly the expected reference list"
 
 
+def o_race_wakeup(p, cfg):
+    """C07 / C08 / C16 wait loops: T1 holds identifier X (paused inside its critical section), T2
+    waits for X, a third call on an unrelated identifier Y completes and notifies; T2 must still be
+    waiting (a waiter that does not re-check its condition enters X's critical section)."""
+    import threading
+    import time as _t
+    if p.get("mp"):
+        os.environ["USE_MULTIPROCESSING"] = "True"
+    try:
+        store, props, root = new_store(cfg)
+    finally:
+        os.environ.pop("USE_MULTIPROCESSING", None)
+    kind = p.get("class", "cid")
+    cx = store.store_object(None, tmp_input(root, b"content X", "x.bin")).cid
+    cy = store.store_object(None, tmp_input(root, b"content Y", "y.bin")).cid
+    entered, gate = threading.Event(), threading.Event()
+    real_move = shutil.move
+
+    def slow_move(src, dst, *a, **k):
+        if threading.current_thread().name == "T1" and not entered.is_set():
+            entered.set()
+            gate.wait(15)
+        return real_move(src, dst, *a, **k)
+    res = {}
+
+    def run(name, f, *a):
+        res[name] = outcome(f, *a)
+    shutil.move = slow_move
+    try:
+        if kind == "cid":
+            calls = [(store.tag_object, "pid-1", cx), (store.tag_object, "pid-2", cx),
+                     (store.tag_object, "pid-3", cy)]
+        else:      # pid-keyed locks: the same pid from two threads, another pid in between
+            calls = [(store.store_metadata, "pid-1", tmp_input(root, b"<a/>", "a.xml"), "f1"),
+                     (store.store_metadata, "pid-1", tmp_input(root, b"<b/>", "b.xml"), "f1"),
+                     (store.store_metadata, "pid-3", tmp_input(root, b"<c/>", "c.xml"), "f1")]
+        t1 = threading.Thread(target=run, args=("T1",) + calls[0], name="T1", daemon=True)
+        t1.start()
+        if not entered.wait(10):
+            return None, "T1 never reached its first rename"
+        t2 = threading.Thread(target=run, args=("T2",) + calls[1], name="T2", daemon=True)
+        t2.start()
+        _t.sleep(0.4)
+        if not t2.is_alive():
+            return True, "T2 did not wait for the identifier T1 holds"
+        run("T3", *calls[2])
+        t2.join(1.5)
+        early = not t2.is_alive()
+        gate.set()
+        t1.join(15)
+        t2.join(15)
+    finally:
+        gate.set()
+        shutil.move = real_move
+    if t1.is_alive() or t2.is_alive():
+        return True, "a call never finished after the holder released"
+    if early:
+        return True, (f"T2 entered the critical section of {kind} X while T1 still held it: it was woken "
+                      f"by the release of an unrelated {kind} and did not re-check (outcomes {res['T1'][0]}, "
+                      f"{res['T2'][0]}, {res['T3'][0]})")
+    return False, "T2 kept waiting until T1 released"
+
+
+def o_race_meta_pause(p, cfg):
+    """C12 W-Meta: thread A is paused at its first rename / remove of one metadata document; a
+    second call that writes the same document must wait until A is done (it must hold the lock of
+    that very document)."""
+    import threading
+    pid, fmt = "pid-1", "fmt-x"
+    pairs = [("delete_all", "delete_one"), ("delete_all", "store_one"), ("delete_object", "delete_one"),
+             ("delete_one", "delete_all"), ("store_one", "delete_all")]
+    for a_name, b_name in pairs:
+        store, props, root = new_store(cfg)
+        store.store_object(pid, tmp_input(root, b"object bytes", "o.bin"))
+        store.store_metadata(pid, tmp_input(root, b"<sys/>", "s.xml"))
+        store.store_metadata(pid, tmp_input(root, b"<x/>", "x.xml"), fmt)
+        target = store._computehash(pid + fmt)
+        newdoc = tmp_input(root, b"<x2/>", "x2.xml")
+        ops = {"delete_all": lambda: store.delete_metadata(pid),
+               "delete_one": lambda: store.delete_metadata(pid, fmt),
+               "store_one": lambda: store.store_metadata(pid, newdoc, fmt),
+               "delete_object": lambda: store.delete_object(pid)}
+        entered, gate, b_done = threading.Event(), threading.Event(), threading.Event()
+        real_move, real_remove = shutil.move, os.remove
+
+        def hit(path):
+            return threading.current_thread().name == "A" and not entered.is_set() and \
+                os.path.basename(str(path)).startswith(target)
+
+        def slow_move(src, dst, *a, **k):
+            if hit(src) or hit(dst):
+                entered.set()
+                gate.wait(10)
+            return real_move(src, dst, *a, **k)
+
+        def slow_remove(path, *a, **k):
+            if hit(path):
+                entered.set()
+                gate.wait(10)
+            return real_remove(path, *a, **k)
+        res = {}
+
+        def run(name, f):
+            res[name] = outcome(f)
+            if name == "B":
+                b_done.set()
+        shutil.move, os.remove = slow_move, slow_remove
+        try:
+            ta = threading.Thread(target=run, args=("A", ops[a_name]), name="A", daemon=True)
+            ta.start()
+            if not entered.wait(5):
+                gate.set()
+                ta.join(10)
+                continue
+            tb = threading.Thread(target=run, args=("B", ops[b_name]), name="B", daemon=True)
+            tb.start()
+            early = b_done.wait(1.5)
+            gate.set()
+            ta.join(10)
+            tb.join(10)
+        finally:
+            gate.set()
+            shutil.move, os.remove = real_move, real_remove
+        if early:
+            return True, (f"{b_name} on document (pid, {fmt}) ran to completion ({res['B'][0]}"
+                          f"{' ' + res['B'][1] if res['B'][0] == 'raise' else ''}) while {a_name} was in the "
+                          f"middle of renaming / removing that document: {a_name} does not hold that "
+                          f"document's lock (A then ended with {res.get('A', ('?',))[0]}"
+                          f"{' ' + res['A'][1] if res.get('A', ('',))[0] == 'raise' else ''})")
+        shutil.rmtree(root, ignore_errors=True)
+    return False, f"{len(pairs)} pairs: the second writer of the document always waited"
+
+
+def o_mp_fork_wait(p, cfg):
+    """C16: in multiprocessing mode a call that waits for an identifier held by ANOTHER PROCESS is
+    woken when that process releases it (and not before)."""
+    import threading
+    import time as _t
+    os.environ["USE_MULTIPROCESSING"] = "True"
+    try:
+        store, props, root = new_store(cfg)
+    finally:
+        os.environ.pop("USE_MULTIPROCESSING", None)
+    pid, fmt = "pid-mp", "fmt-mp"
+    d1, d2 = tmp_input(root, b"<one/>", "m1.xml"), tmp_input(root, b"<two/>", "m2.xml")
+    marker = os.path.join(root, "child-in-critical-section")
+    child = os.fork()
+    if child == 0:
+        try:
+            real_move = shutil.move
+
+            def slow_move(src, dst, *a, **k):
+                open(marker, "w").close()
+                _t.sleep(2.0)
+                return real_move(src, dst, *a, **k)
+            shutil.move = slow_move
+            store.store_metadata(pid, d1, fmt)
+        finally:
+            os._exit(0)
+    t0 = _t.time()
+    while not os.path.exists(marker) and _t.time() - t0 < 10:
+        _t.sleep(0.05)
+    if not os.path.exists(marker):
+        os.kill(child, 9)
+        os.waitpid(child, 0)
+        return None, "the child never entered its critical section"
+    res = {}
+    done = threading.Event()
+
+    def run():
+        res["out"] = outcome(store.store_metadata, pid, d2, fmt)
+        res["t"] = _t.time()
+        done.set()
+    t_start = _t.time()
+    th = threading.Thread(target=run, daemon=True)
+    th.start()
+    finished = done.wait(12)
+    try:
+        os.waitpid(child, 0)
+    except ChildProcessError:
+        pass
+    if not finished:
+        return True, ("store_metadata in the parent process waited for a document held by a child process "
+                      "and was never woken after the child released it (blocked > 10 s after release)")
+    if res["t"] - t_start < 1.0:
+        return True, "the parent did not wait for the document held by the child process"
+    if res["out"][0] != "return":
+        return True, f"the waiting call ended with {res['out'][1]}"
+    return False, "the waiting process was woken by the release in the other process"
+
+
+ORACLES["mp_fork_wait"] = o_mp_fork_wait
+ORACLES["race_meta_pause"] = o_race_meta_pause
+ORACLES["race_wakeup"] = o_race_wakeup
 ORACLES["refs_helper_pool"] = o_refs_helper_pool
 ORACLES["identifier_pool"] = o_identifier_pool
 ORACLES["race_store_meta_delete_all"] = o_race_store_meta_delete_all
